@@ -17,8 +17,23 @@ for pid in sorted(claims):
     kf = ', '.join(sorted({k.split(' ')[0] for k in (cov.get('known_findings_seen') or [])})) or '-'
     rows.append(f"| {pid} | {len(cov.get('functions_under_contract') or [])} | {cov.get('obligations', '?')} | {cov.get('discharged', '?')} | {ev.get('wall_s', 0):.0f} s | {bs} | {kf} |")
 out = ["| property | functions under contract | obligations | discharged | quick wall time | bounded stand-ins (not counted) | known-finding obligations seen |", "|---|---|---|---|---|---|---|"] + rows
+held = []
+for d in sorted(glob.glob(V + '/seeded/*-C')):
+    try:
+        m = json.load(open(d + '/meta.json'))
+    except Exception:
+        continue
+    sid = os.path.basename(d); own = sid.split('-')[0]
+    det = m.get('heldout_detected_by') or []
+    how = m.get('heldout_detected_how') or []
+    verdict = 'own check' if own in det else ('another check' if det else '**missed**')
+    now = m.get('detected_by') if isinstance(m.get('detected_by'), list) else []
+    held.append(f"| {sid} | {' '.join(m.get('heldout_checks_run', [])) or '-'} | {' '.join(det) or '-'} | {verdict} | `{how[0] if how else '-'}` | {' '.join(now) or '-'} |")
+hout = ["| held-out change | checks run | detected by (first run) | verdict | first failing obligation | detected by (current contracts) |", "|---|---|---|---|---|---|"] + held
 seeds = []
 for d in sorted(glob.glob(V + '/seeded/*')):
+    if d.endswith('-C'):
+        continue
     try:
         m = json.load(open(d + '/meta.json'))
     except Exception:
@@ -54,5 +69,6 @@ aout = ['| package | in-repo functions with an assumed (extern) contract |', '|-
 put('assumed', aout)
 put('status', out)
 put('seeds', sout)
+put('heldout', hout)
 open(p, 'w').write(s)
 print('DESIGN.md tables regenerated')
